@@ -80,9 +80,16 @@ package sender
 //@ extern (sender.FileSource).Close params s
 //@ extern (sender.File).Read params f, p
 //@   effect srcread(fileSrc(data(f)))
-//@   modifies contents(p)
+//@   modifies contents(p), ghost.fpos
 //@   ensures 0 <= result && result <= len(p)
+//@   ensures ghost.fpos == store(old(ghost.fpos), data(f), old(select(ghost.fpos, data(f))) + result)
+//@   ensures forall k :: 0 <= k && k < result ==> p[k] == fbyte(data(f), old(select(ghost.fpos, data(f))) + k)
+//@   ensures staticFile(data(f)) ==> old(select(ghost.fpos, data(f))) + result <= fsize(data(f))
+//@   ensures staticFile(data(f)) && old(select(ghost.fpos, data(f))) < fsize(data(f)) && len(p) > 0 ==> err == nil && result > 0
 //@ extern (sender.File).Seek params f, offset, whence
+//@   modifies ghost.fpos
+//@   ensures err == nil && whence == 0 ==> ghost.fpos == store(old(ghost.fpos), data(f), offset)
+//@   ensures staticFile(data(f)) && whence == 0 && offset >= 0 ==> err == nil
 //@ extern (sender.File).Stat params f
 //@   effect srcread(fileSrc(data(f)))
 //@ extern (sender.File).Close params f
@@ -153,8 +160,27 @@ package sender
 // ---------------------------------------------------------------- C17: frame sizes
 // Every data write that can reach the multiplexed writer stays within
 // maxMessageSize (262144): literal chunks, whole-file chunks, checksums.
+// The source file as a mathematical object: fsize(f) bytes fbyte(f, 0..),
+// read through a cursor ghost.fpos[f]. staticFile(f) is the hypothesis of
+// C01/C02 that the file is not modified and reads do not fail during the
+// session (a static source tree).
+//@ ghost fpos: ObjIntArray
+//@ spec func fsize(f: int): int
+//@ spec func fbyte(f: int, i: int): int
+//@ spec func staticFile(f: int): bool
+// Representation invariant of the sliding read window.
+//@ spec func winOK(ms: *sender.mapStruct): bool = 0 <= ms.pOffset && 0 <= ms.pLen && ms.pLen <= len(ms.window) && ms.pSize == len(ms.window) && mod(ms.pOffset, 1024) == 0 && ms.fileSize == fsize(data(ms.f)) && ms.pOffset + ms.pLen <= ms.fileSize && ms.fileSize <= 4611686018427387904 && ms.defWindowSize >= 1024 && ms.defWindowSize <= 4294967296 && mod(ms.defWindowSize, 1024) == 0 && ms.pFdOffset == select(ghost.fpos, data(ms.f)) && (forall k :: 0 <= k && k < ms.pLen ==> ms.window[k] == fbyte(data(ms.f), ms.pOffset + k))
 //@ func (*sender.mapStruct).ptr
-//@   ensures[C17] [length] err == nil ==> len(result) == max(l, 0)
+//@   requires[C02] [window-invariant] winOK(ms)
+//@   requires[C02] [range-in-file] 0 <= offset && offset + l <= ms.fileSize
+//@   ensures[C02] [window-invariant] err == nil ==> winOK(ms)
+//@   ensures[C02,C17] [length] err == nil ==> len(result) == max(l, 0)
+//@   ensures[C02] [content] err == nil ==> forall k :: 0 <= k && k < l ==> result[k] == fbyte(data(ms.f), offset + k)
+//@   ensures[C02] [succeeds] staticFile(data(ms.f)) && l >= 0 ==> err == nil
+//@   ensures[C02] [same-file] ms.f == old(ms.f) && ms.fileSize == old(ms.fileSize)
+//@   loop[C02] 0: invariant [read-progress] 0 <= readOffset && 0 <= readSize && readOffset + readSize == ms.pLen && ms.pLen <= len(ms.window) && ms.pFdOffset == ms.pOffset + readOffset && ms.pFdOffset == select(ghost.fpos, data(ms.f)) && ms.pOffset + ms.pLen <= ms.fileSize
+//@   loop[C02] 0: invariant [window-prefix-read] forall k :: 0 <= k && k < readOffset ==> ms.window[k] == fbyte(data(ms.f), ms.pOffset + k)
+//@   loop[C02] 0: invariant [fields-stable] ms.f == old(ms.f) && ms.fileSize == old(ms.fileSize) && ms.fileSize == fsize(data(ms.f)) && ms.pSize == len(ms.window) && mod(ms.pOffset, 1024) == 0 && ms.pOffset == offset - mod(offset, 1024) && ms.defWindowSize == old(ms.defWindowSize) && 0 <= ms.pOffset
 //@ func (*sender.Transfer).simpleSendToken
 //@   at[C17] (io.Writer).Write: assert [chunk-within-frame-limit] len(arg0) <= 262144
 //@   loop 0: invariant [literal-progress] 0 <= l && l <= n
